@@ -212,7 +212,13 @@ impl<'a> Parser<'a> {
 
     /// Peek at the next n characters.
     fn peek_str(&self, n: usize) -> &str {
-        let end = (self.pos + n).min(self.input.len());
+        let mut end = (self.pos + n).min(self.input.len());
+        // `n` counts bytes, and every caller compares against ASCII: back off
+        // to a char boundary so a multi-byte character straddling `pos + n`
+        // (e.g. `.é`, or U+FEFF after a digit) cannot split the slice.
+        while !self.input.is_char_boundary(end) {
+            end -= 1;
+        }
         &self.input[self.pos..end]
     }
 
